@@ -127,6 +127,12 @@ def c12_target(spec, ready=None):
     if kind == 'sleep':
         time.sleep(spec[1])
         return 'slept'
+    if kind == 'return-unpicklable':
+        return threading.Lock()
+    if kind == 'os-exit':
+        import os as _os
+
+        _os._exit(spec[1])
     if kind == 'linger':
         def stay():
             time.sleep(0.15)
